@@ -20,6 +20,7 @@ class IBM:
         self.kill = _sched(kwargs.get("kill"))
         self.kill_tag = _sched(kwargs.get("kill_tag"))  # by release-row tag `rid`
         self.deactivate = _sched(kwargs.get("deactivate"))
+        self.deactivate_tag = _sched(kwargs.get("deactivate_tag"))
         self.activate = _sched(kwargs.get("activate"))
         self.age = kwargs.get("age", False)
         self.lifetime = kwargs.get("lifetime")  # seconds
@@ -60,6 +61,8 @@ class IBM:
             st["alive"] = st["alive"] & ~np.isin(st["rid"], np.asarray(self.kill_tag[step], dtype=int))
         if step in self.deactivate:
             st["active"] = st["active"] & ~self._sel(self.deactivate[step])
+        if step in self.deactivate_tag:
+            st["active"] = st["active"] & ~np.isin(st["rid"], np.asarray(self.deactivate_tag[step], dtype=int))
         if step in self.activate:
             st["active"] = st["active"] | self._sel(self.activate[step])
 
